@@ -3,6 +3,7 @@ import Lc.Driver.Base
 import Lc.Driver.C05
 import Lc.Driver.C06
 import Lc.Driver.C07
+import Lc.Driver.Contents
 import Lc.Driver.C11
 import Lc.Driver.C12
 import Lc.Driver.C13
@@ -19,7 +20,7 @@ import Lc.Driver.ScenarioHandle
 open Lean Lc.Driver
 
 def handlers : List (String → Json → Option Json) :=
-  [Base.handle, C05.handle, C06.handle, C07.handle, C11.handle, C12.handle, C13.handle, C14.handle, C17.handle, C18.handle, C19.handle, C20.handle, Bin.handle, C10Stage.handle, SmCli.handle, ScenarioHandle.handle]
+  [Base.handle, C05.handle, C06.handle, C07.handle, Contents.handle, C11.handle, C12.handle, C13.handle, C14.handle, C17.handle, C18.handle, C19.handle, C20.handle, Bin.handle, C10Stage.handle, SmCli.handle, ScenarioHandle.handle]
 
 def dispatch (j : Json) : Json :=
   let op := getStr j "op"
